@@ -427,9 +427,21 @@ def compile_ast(
         )
 
         assert not set(right_name_in_df.keys()) & set(name_in_df.keys())
+        left_uuids = set(name_in_df.keys())
         name_in_df.update(right_name_in_df)
 
-        eq_predicates = [pred for pred in predicates if pred.op == ops.equal]
+        def sides(pred: ColFn) -> list[str]:
+            # which input each operand reads: "l", "r", "" (no column), "lr" (both)
+            res = []
+            for arg in pred.args:
+                uuids = {e._uuid for e in arg.iter_subtree_postorder() if isinstance(e, Col)}
+                res.append(("l" if uuids & left_uuids else "") + ("r" if uuids - left_uuids else ""))
+            return res
+
+        # join keys: equalities with one operand per input (an equality over one input only is an ordinary predicate)
+        eq_predicates = [
+            pred for pred in predicates if pred.op == ops.equal and sorted(sides(pred)) in (["l", "r"], ["", "l"], ["", "r"])
+        ]
         left_on, right_on = get_left_right_on(eq_predicates, name_in_df, right_name_in_df)
 
         # If there are only equality predicates, use normal join. Else use join_where
@@ -453,12 +465,15 @@ def compile_ast(
             if nd.how == "left":
                 df = df.with_columns(__INDEX__=pl.int_range(0, pl.len(), dtype=pl.Int64))
 
+            right_schema = right_df.collect_schema()
             joined = df.join_where(
                 right_df,
                 *(compile_col_expr(pred, name_in_df) for pred in predicates),
             ).with_columns(
-                # polars deletes the right column in equality predicates...
-                pl.col(name_in_df[left_col._uuid]).alias(name_in_df[right_col._uuid])
+                # polars deletes the right column in equality predicates... (it comes back with its own type)
+                pl.col(name_in_df[left_col._uuid])
+                .cast(right_schema[name_in_df[right_col._uuid]])
+                .alias(name_in_df[right_col._uuid])
                 for left_col, right_col in zip(left_on, right_on, strict=True)
                 if isinstance(left_col, Col) and isinstance(right_col, Col)
             )
